@@ -56,6 +56,29 @@ def h5_grammar_ok(ref):
     return True
 
 
+def with_caller_zero(w, slot, code):
+    """(table, model) where, sometimes, a copy of the slot's table (same
+    layout) has had one stored entry overwritten with 0 by the caller through
+    the public matrix_data attribute: an explicitly stored zero 'supplied by
+    the caller' at write time"""
+    from .world import Slot
+    if code % 4 != 0:
+        return slot
+    t = slot.real.copy()
+    m = t.matrix_data
+    if m.getformat() not in ('csr', 'csc') or len(m.data) == 0:
+        return slot
+    k = (code // 4) % len(m.data)
+    major = int(np.searchsorted(m.indptr, k, side='right') - 1)
+    minor = int(m.indices[k])
+    r, c = (major, minor) if m.getformat() == 'csr' else (minor, major)
+    m.data[k] = 0.0
+    ref = slot.ref.copy()
+    ref.m[r, c] = 0.0
+    w.stats['rare.caller_stored_zero'] += 1
+    return Slot(t, ref, w.evidx)
+
+
 def _write_h5(w, ev, slot, path, stamp=True):
     """write slot's table to path through a PRNG-chosen route; returns the
     dict of what was written (generated_by, creation_date, ...)"""
@@ -176,12 +199,16 @@ def c01_roundtrip(w, ev, slot):
         return 'skip:loaded_group_md'
     path = store.new_path(w, '.biom')
     w.case('c01.roundtrip', 'write', slot, a=ev.get('a', 0) % 16)
+    src = with_caller_zero(w, slot, ev.get('salt', 0) // 7)
+    if src is not slot:
+        gmt = [None, None]
     try:
-        meta = _write_h5(w, ev, slot, path)
+        meta = _write_h5(w, ev, src, path)
     except Exception as e:  # noqa
         w.fail('c01.write_raised', 'writing raised %r' % (e,))
     meta['group_md'] = gmt
     w.expect_unchanged(slot, 'c01.source_changed', 'to_hdf5')
+    ref = src.ref
     loaded_tables = []
     for route in range(4):
         what = ('load_table(path)', 'parse_table(h5py handle)',
@@ -227,8 +254,10 @@ def c04_spec(w, ev, slot):
         return 'skip:md_grammar'
     if _group_md_text(slot.real) is False:
         return 'skip:loaded_group_md'
-    target = slot
+    target = with_caller_zero(w, slot, ev.get('salt', 0) // 7)
     mode = ev.get('c', 0) % 6
+    if target is not slot:
+        mode = 5
     tmp = None
     if mode in (0, 1):
         # empty-axis tables (0 x M, N x 0): the only profile generating them
